@@ -463,3 +463,11 @@ silent("c10-benign-adapt-final-order", "C10", "flowjax/bisection_search.py",
        "    upper = jnp.where(state.lower_fn_sign == 0, lower, upper)\n    lower = jnp.where(state.upper_fn_sign == 0, upper, lower)")
 fire("c10-adapt-final-wrong-sign", "C10", "flowjax/bisection_search.py",
      "    lower = jnp.where(state.upper_fn_sign == 0, upper, lower)", "    lower = jnp.where(state.lower_fn_sign == 0, upper, lower)", "C10.adapt")
+fire("c18-planar-sech2-overflow", "C18", B + "planar.py",
+     "            psi = (1 - act**2) * self.weight",
+     "            psi = self.weight / jnp.cosh(x @ self.weight + self.bias) ** 2", "C18.overflow")
+silent("c02-benign-planar-sech2-is-the-same-derivative", ["C02", "C13"], B + "planar.py",
+       "            psi = (1 - act**2) * self.weight",
+       "            psi = self.weight / jnp.cosh(x @ self.weight + self.bias) ** 2")
+fire("c14-partial-binds-array", "C14", "flowjax/distributions.py",
+     "Lambda(lambda w: log_softmax(w), jnp.log(weights))", "Lambda(partial(log_softmax, jnp.log(weights)))", "C14.closure")
